@@ -6,6 +6,8 @@ package main
 // fields intact is visible only here.
 
 import (
+	"time"
+	"context"
 	"fmt"
 	"sort"
 	"strconv"
@@ -179,6 +181,14 @@ func init() {
 		la := e.(*lockedAI)
 		la.mu.Lock()
 		defer la.mu.Unlock()
+		if len(a) > 1 && a[1] == "s" {
+			// the engine has just searched (this very position, depth 1) under a context that ended afterwards, as after
+			// the usual `defer cancel()`; give the watcher goroutine of that search time to act
+			ctx, cancel := context.WithCancel(context.Background())
+			la.ai.Analyze(ctx, p)
+			cancel()
+			time.Sleep(300 * time.Microsecond)
+		}
 		return strconv.FormatInt(la.ai.Evaluate(p), 10)
 	}
 	// the precise configuration exactly as users obtain it: MinimaxConfig.MakePrecise() on a default-flag configuration
